@@ -21,7 +21,7 @@ MANIFEST = dict(
     level="model_checking", design_ref="DESIGN.md 8 (C05), 7 (Clock), Appendix A.4",
     technique="TLA+ model of the clock (TLC: all command histories x callback/chunk partitions, reader/publisher interleavings at word granularity) against an exact reference; TLC schedules replayed on the real clock through cfg(kira_verif) yield points; TLC trace validation against P_C05; two known findings matched by signature",
     text="TLC checks that for every history of start/pause/stop/speed commands (immediate, or delayed by some frames of audio time that pass whether or not the clock ticks) and every partition of time into callbacks and internal chunks the published time equals speed x running time at a chunk boundary, that a sound scheduled for a clock time starts in the chunk during which the ticking clock reaches it (never late, never while paused or short), and explores every interleaving of a two-word time() read with the audio thread's two-word publication. Generated schedules are forced onto the real clock; every recorded session is validated by TLC against the same reference.",
-    note="Speeds and times are dyadic (1/4 tick units) so comparisons are exact. Speed changes in the clock model are zero-length tweens, immediate or delayed by a number of frames; tweens of non-zero length (1-7 buffers, both units on either side) are observed buffer by buffer and judged by TLC against the reference integral with a tolerance of a few 1e-4 ticks (P_C05T) (the code integrates them stepwise per chunk; the statement gives no tolerance). A stop() overlapping a callback's command reads is explored at the granularity of its two command writes (cmd.w / cmd.r yield points); a stop() overlapping a time() read (second writer of the two published words) is not. Known findings D10 (torn read) and D11 (own-time speed change never fires) are listed in known_findings.json; the missing-clock cancellation is covered by C03.")
+    note="Speeds and times are dyadic (1/4 tick units) so comparisons are exact. Speed changes in the clock model are zero-length tweens, immediate or delayed by a number of frames; tweens of non-zero length (1-7 buffers, both units on either side) are observed buffer by buffer and judged by TLC against the reference integral with a tolerance of a few 1e-4 ticks (P_C05T) (the code integrates them stepwise per chunk; the statement gives no tolerance). A stop() overlapping a callback's command reads is explored at the granularity of its two command writes (cmd.w / cmd.r yield points); a stop() overlapping a time() read (second writer of the two published words) is not. Known findings D10 (torn read) and D11 (own-time speed change never fires) are listed in known_findings.json; the cancellation of sounds waiting for a clock that goes away is a model of its own (ClockCancel.tla: three clocks in adjacent slots, every history of handle drops and callbacks, replayed).")
 
 
 def cfg(b, ns, speeds, targets, maxcmd, maxcb, maxrd, maxsched, own, extra, spec=None, delays=(), racy=False, reset_first=True, write_reset_first=False):
@@ -78,6 +78,19 @@ def model_check(res, tier):
     for w, own, rd, sch in (("W_Torn", False, 2, 0), ("W_Own", True, 0, 0), ("W_Fired", False, 0, 1), ("W_DelayRanOutWhileNotTicking", False, 0, 0)):
         tlc_check("MC_Clock.tla", write_cfg("Clock_%s.cfg" % w, cfg(2, [1, 3], [1, 2], [3], 2, 4, rd, sch, own, "VIEW View\nINVARIANT " + w, delays=[2])),
                   workers=4, timeout=900, expect_violation=w, tag="c05w")
+    # clocks going away under scheduled sounds
+    cc = "SPECIFICATION Spec\nCONSTANTS\n  N = 3\n  MaxW = %d\n  MaxCb = %d\n  SkipAfterRemoved = %s\n%s\nCHECK_DEADLOCK FALSE\n"
+    mw, mcb = (3, 5) if tier == "quick" else (4, 7)
+    st = tlc_check("ClockCancel.tla", write_cfg("ClockCancel.cfg", cc % (mw, mcb, "FALSE", "INVARIANTS PropertyHolds NoGhost")), workers=4, timeout=900, tag="c05cc")
+    if st["violated"]:
+        res.drift.append({"model": "ClockCancel", "violated": st["violated"]})
+    res.add_mc("ClockCancel clocks=3 ticks<=%d callbacks<=%d" % (mw, mcb), st)
+    # (a sweep that steps over the entry after a removed one lets the second of two adjacent clocks live on: rejected)
+    tlc_check("ClockCancel.tla", write_cfg("ClockCancel_skip.cfg", cc % (3, 4, "TRUE", "INVARIANT PropertyHolds")), workers=4, timeout=900,
+              expect_violation="PropertyHolds", tag="c05cw")
+    for w in ("W_Cancelled", "W_TwoAtOnce", "W_Survivor"):
+        tlc_check("ClockCancel.tla", write_cfg("ClockCancel_%s.cfg" % w, cc % (3, 4, "FALSE", "INVARIANT " + w)), workers=2, timeout=900,
+                  expect_violation=w, tag="c05cw")
 
 
 def generate(tier, rng):
@@ -163,7 +176,28 @@ def run(tier):
     tbad, _ = tlc_validate("T_C05T.tla", os.path.join(SPEC, "T_C05T.cfg"), ttp, tag="c05ttv")
     judge(res, PROP, tscen, ttp, tbad)
     res.notes["speed_tween_sessions"] = len(tscen)
-    res.evaluations = len(scen) + len(tscen)
+    # ---- clocks that go away under scheduled sounds (ClockCancel.tla / P_C05C.tla): every history of handle drops and callbacks
+    ccfg = write_cfg("Gen_ClockCancel.cfg", "SPECIFICATION GSpec\nCONSTANTS\n  N = 3\n  MaxW = 3\n  MaxCb = 4\n  SkipAfterRemoved = FALSE\n"
+                     "VIEW GView\nINVARIANT Dump\nCHECK_DEADLOCK FALSE\n")
+    cscen = [dict(b[0], mode="cancel", src="tlc-bfs", steps=b[1:]) for b in tlc_generate("Gen_ClockCancel.tla", ccfg, "bfs", timeout=900, tag="c05c")]
+    if tier == "quick":
+        cscen = [x for k, x in enumerate(sorted(cscen, key=lambda x: json.dumps(x, sort_keys=True))) if k % 16 == seed() % 16]
+    csp, ctp = os.path.join(OUT, "c05", "cancel_scen.ndjson"), os.path.join(OUT, "c05", "cancel_trace.ndjson")
+    write_ndjson(csp, cscen)
+    run_kv("c05", csp, ctp)
+    cbad, _ = tlc_validate("T_C05C.tla", os.path.join(SPEC, "T_C05C.cfg"), ctp, tag="c05ctv")
+    judge(res, PROP, cscen, ctp, cbad)
+    res.notes["clock_cancel_sessions"] = len(cscen)
+    # ---- everything that takes a start time, scheduled for a clock tick (Gen_Sched.tla / P_C05S.tla)
+    scfg = write_cfg("Gen_Sched.cfg", "SPECIFICATION Spec\nINVARIANT Dump\nCHECK_DEADLOCK FALSE\n")
+    sscen = [dict(b[0], mode="sched", src="tlc-product") for b in tlc_generate("Gen_Sched.tla", scfg, "bfs", timeout=600, tag="c05s")]
+    ssp, stp = os.path.join(OUT, "c05", "sched_scen.ndjson"), os.path.join(OUT, "c05", "sched_trace.ndjson")
+    write_ndjson(ssp, sscen)
+    run_kv("c05", ssp, stp)
+    sbad, _ = tlc_validate("T_C05S.tla", os.path.join(SPEC, "T_C05S.cfg"), stp, tag="c05stv")
+    judge(res, PROP, sscen, stp, sbad)
+    res.notes["scheduled_start_sessions"] = len(sscen)
+    res.evaluations = len(scen) + len(tscen) + len(cscen) + len(sscen)
     for sc in scen:
         res.distinct.add(behaviour_hash([sc["b"], sc["speed0"], [(s["act"], s.get("c"), s.get("v"), s.get("w"), s.get("n")) for s in sc["steps"]]]))
     res.samples = [{"b": s["b"], "src": s["src"], "steps": [[x["act"], x.get("c"), x.get("v"), x.get("w"), x.get("n")] for x in s["steps"]][:30]}
